@@ -36,7 +36,7 @@ ASSUMPTIONS = [
     "candidate names follow the documented scheme: parameter name, `s.x` for tuple fields, `a[i]` for array elements",
     "the generalized encoding may carry elements beyond the chosen length (non-canonical but valid ABI data); padding bytes of bytes/string are unconstrained",
 ]
-WATCHDOG_S = {"quick": 900, "thorough": 7200}
+WATCHDOG_S = {"quick": 2400, "thorough": 10800}
 
 MANIFEST = {
     "technique": "generated ABI type trees and length configurations; independent symbolic decoder (structure, distinct unconstrained atoms, registered candidates), instance check through an independent concrete ABI decoder, exhaustive candidate exploration through a generated reader program run by SEVM",
